@@ -22,8 +22,15 @@ Bad(r) ==
               => r.frames[k].id \in {r.sent[j] : j \in 1..Len(r.sent)} THEN {} ELSE {"UnknownId"})
   \cup (IF \A k \in 1..Len(r.frames) : r.frames[k].id \in {r.sent[j] : j \in 1..Len(r.sent)}
               => r.frames[k].kind = "result" /\ r.frames[k].result \in {"continue", "fail", "resolve"} THEN {} ELSE {"NotAHookResult"})
+\* scenario expectations (the harness names the answer a request must get, e.g. C15: settled although one part failed)
+Expect(r) ==
+  IF "expect" \in DOMAIN r
+  THEN IF \A k \in 1..Len(r.expect) : \E j \in 1..Len(r.frames) :
+             r.frames[j].id = r.expect[k].id /\ r.frames[j].kind = "result" /\ r.frames[j].result = r.expect[k].result
+       THEN {} ELSE {"WrongResult"}
+  ELSE {}
 Next == /\ l <= N /\ l' = l + 1
-        /\ LET b == Bad(Rec[l]) IN b # {} => PrintT(<<"E2EVIOL", Rec[l].run, b>>)
+        /\ LET b == Bad(Rec[l]) \cup Expect(Rec[l]) IN b # {} => PrintT(<<"E2EVIOL", Rec[l].run, b>>)
 Spec == Init /\ [][Next]_l
 Accepted == TLCGet("stats").diameter - 1 = N
 =============================================================================
